@@ -166,6 +166,7 @@ def check_model(spec, ops, mo, gen=None, res=None, rec=None):
     try:
         sub, back = with_stub(go)
     except Exception as e:
+        rec['raised'] = type(e).__name__
         return Violation(what=f'ingest / import raises {type(e).__name__}: {str(e)[:100]}', fingerprint='C19:raises:' + type(e).__name__, replay={'spec': spec, 'ops': ops})
     # isomorphism of the export
     want_nodes = [[str(a.type), str(a.name), str(int(a.id)), str(a.type)] for a in m.assets]
@@ -214,6 +215,7 @@ def check_graph(ops, mo, gen=None, res=None, rec=None):
                 'rels': sorted([idx[id(r.start_node)], idx[id(r.end_node)]] for r in sg.relationships)}
     try: sub = with_stub(go)
     except Exception as e:
+        rec['raised'] = type(e).__name__
         return Violation(what=f'ingest_attack_graph raises {type(e).__name__}: {str(e)[:100]}', fingerprint='C19:graph-raises', replay={'ops': ops})
     want = [[str(n.asset.name) if n.asset else str(n.id), n.name, n.full_name, n.type, str(n.ttc), str(n.is_necessary), str(n.is_viable),
              str([a.name for a in n.compromised_by]), 'N/A' if n.defense_status is None else str(n.defense_status)] for n in g.nodes]
@@ -270,6 +272,50 @@ def run(seed, tier, lean) -> Result:
     if mm: res.samples.append({'exported': mm[0].get('model', {}).get('sub')})
     else: res.samples.append({'ops': mcases[0][1][:5]})
     return res
+
+def genexec_measure(seed: int, n: int) -> dict:
+    """tools/genexec_seeded.py: n model cases and n attack-graph cases of the quick check on the (possibly mutated)
+    implementation, the hand-written model and the (re)generated code.  `impl_ne_hand`: the check of the case reports anything
+    without the third column (the oracle - isomorphism / inversion - or the Lean model)."""
+    rnd = random.Random(seed)
+    stats = {'cases': 0, 'impl_ne_hand': 0, 'gen_follows_impl': 0, 'gen_ne_impl': 0, 'impl_crash': 0, 'examples': []}
+    def note(kind, info):
+        if len([e for e in stats['examples'] if e[0] == kind]) < 2: stats['examples'].append([kind, info])
+    mcases, gcases = [], []
+    for i in range(n):
+        r = random.Random(rnd.getrandbits(48))
+        spec = LangGen(r, knobs={'dup_assoc_names': 0.4, 'reuse_fields': 0.6}).gen()
+        mcases.append((spec, Gen(r, spec, WEIGHTS, explicit_attacker_ids=False, extras=False).gen(r.randint(4, 30))[:-1]))
+        gcases.append(aghist.Gen(r, GW, nmax=r.choice([4, 7]), rich=True).gen(r.randint(5, 25))[:-1])
+    mp = [{'op': 'neo4j_model', 'case': i, 'lang': lang_payload(s), 'ops': o} for i, (s, o) in enumerate(mcases)]
+    gp = [{'op': 'neo4j_graph', 'case': i, 'ops': o} for i, o in enumerate(gcases)]
+    out = run_driver(mp + gp + [dict(p, op='gen_neo4j_model') for p in mp] + [dict(p, op='gen_neo4j_graph') for p in gp])
+    mm, gm, gmm, ggm = out[:n], out[n:2 * n], out[2 * n:3 * n], out[3 * n:]
+    def one(what, check, args, mo, go, gcheck, replay):
+        stats['cases'] += 1
+        if 'error' in mo or 'error' in go: note('driver-error', [what, mo.get('error'), go.get('error')]); return
+        rec = {}
+        try: v = check(*args, mo['model'], None, None, rec)
+        except Exception as e:
+            stats['impl_crash'] += 1; note('impl-crash', f'{what}: {type(e).__name__}: {str(e)[:100]}'); return
+        names = ('ValueError', 'LookupError', 'DuplicateModelAssociationError', 'ModelAssociationException', 'KeyError', 'AttributeError',
+                 'AssertionError', 'RecursionError')
+        cls = rec.get('raised') if rec.get('raised') in names else 'OtherError'
+        if 'full' not in rec:                              # the implementation raised before anything was recorded
+            g = go['model']
+            gv = None if g.get('error') == cls else f'disagree: the implementation raises {rec.get("raised")}, the generated code ' + (g.get('error') or 'stores a subgraph')
+        else:
+            if 'back' not in rec and what == 'model': rec['back'] = {'error': cls}
+            gv = gcheck(rec, go, None, replay)
+            gv = gv.what[:300] if gv else None
+            gv = gv and gv[gv.find('disagree'):]
+        if gv is not None: stats['gen_ne_impl'] += 1; note('gen!=impl', {'kind': what, 'gen_vs_impl': gv[:200], 'impl_vs_hand': v.fingerprint if v else None})
+        if v is not None:
+            stats['impl_ne_hand'] += 1
+            if gv is None: stats['gen_follows_impl'] += 1; note('gen=impl!=hand', {'kind': what, 'impl_vs_hand': v.fingerprint})
+    for i, (spec, ops) in enumerate(mcases): one('model', check_model, (spec, ops), mm[i], gmm[i], gen_model_check, {})
+    for i, ops in enumerate(gcases): one('graph', check_graph, (ops,), gm[i], ggm[i], gen_graph_check, {})
+    return stats
 
 def replay(path):
     r = json.load(open(path))
